@@ -36,7 +36,7 @@ def _worker(job):
         every = list(getattr(mod, "CONTRACTS", []))
         group = getattr(mod, "CANARIES", []) if kind == "canary" else every
         c = group[index]
-        timeout = 10000 if tier == "quick" else 60000
+        timeout = 30000 if tier == "quick" else 120000
         r = verify(c, contracts=every, timeout_ms=timeout)
         carved = []
         if kind != "canary" and any(ob["status"] != "unsat" for ob in r.obligations.values()):
@@ -176,7 +176,7 @@ def main(argv=None):
         for i, c in enumerate(getattr(mod, "CANARIES", [])):
             if pid in c.props and not args.only:
                 jobs.append((pid, modname, i, tier, "canary"))
-    results = run_jobs(jobs, max(1, args.jobs), 900 if tier == "quick" else 3600)
+    results = run_jobs(jobs, max(1, args.jobs), 1500 if tier == "quick" else 5400)
 
     # a recorded finding is keyed by function/clause/region, whichever property's check re-derives it
     findings = [f for f in load_findings() if f.get("status", "open") == "open"]
